@@ -56,6 +56,16 @@ func finish(x *X, n *Node, ss []sample, extra string) {
 	// C19/C05: a running node that has gone quiet outside every SPI call is waiting for messages or for its timeout;
 	// if no election timer is armed (and no trigger is in flight, since nothing is enabled), the timeout of the
 	// position it sits in can never arrive any more.
+	// C15: a worker that waits inside an SPI call on a context nobody will ever cancel stalls the node: if everything
+	// has gone quiet, the call has not returned, its context is live and no election timer is armed, only a sync or
+	// shutdown could still release it.
+	if n.Ctx.Err() == nil && n.InSPI > 0 && len(s.Panics) == 0 && s.Quiescent() && s.ArmedTimers() == 0 {
+		for _, c := range n.SpiCalls {
+			if !c.Returned && c.Ctx.Err() == nil && c.Kind != "commit" {
+				x.Bad("C15", "spi-call-stalls-node", "%s(h%d) waits on a live context while the node sits in (h%d,v%d) with no election timer armed and nothing in flight: no election trigger can release it any more (events %v)", c.Kind, c.Height, h, v, tail(n.Events, 8))
+			}
+		}
+	}
 	if n.Ctx.Err() == nil && n.InSPI == 0 && len(s.Panics) == 0 && s.Quiescent() && s.ArmedTimers() == 0 && h > 0 {
 		x.Bad("C19", "quiescent-without-timer", "the node sits in (h%d,v%d) with nothing left to run, no election timer armed and no trigger in flight: the timeout of this position is lost (events %v)", h, v, tail(n.Events, 8))
 	}
@@ -585,6 +595,40 @@ func init() {
 		}
 		finish(x, n, nil, "")
 	})
+
+	// S-validate-ahead-{nv,pp}: the follower receives a proposal for a view AHEAD of its own while its consumer's
+	// validator waits on the context it is given: "nv" = an ordinary NEW_VIEW for view 1 (correct leader, three genuine
+	// votes) reaching a node that is still in view 0; "pp" = a stand-alone PREPREPARE for view 5 from that view's
+	// leader. The node's (h1,v0) timer then expires. Whatever context the validator got must be cancelled by then or
+	// by a later timer: the call must not wait for ever (C15), the node must go on to time out (C19).
+	for _, kind := range []string{"nv", "pp"} {
+		kind := kind
+		registerBoth("S-validate-ahead-"+kind, []string{"C15", "C19"}, 2, 3, 4, func(x *X, cancel bool) {
+			n := newNode(x, 2)
+			n.BlockVal[1] = true
+			n.Boot()
+			s := x.S
+			blk := kit.NewBlock(1, "B1")
+			var msg *interfaces.ConsensusRawMessage
+			if kind == "nv" {
+				var votes []*interfaces.ViewChangeMessage
+				for _, i := range []int{0, 1, 3} {
+					votes = append(votes, n.fac(i, nil).CreateViewChangeMessage(1, 1, nil))
+				}
+				f := n.fac(1, nil)
+				ppb := f.CreatePreprepareMessageContentBuilder(1, 1, blk, kit.HashOf(blk))
+				msg = f.CreateNewViewMessage(1, 1, ppb, interfaces.ExtractConfirmationsFromViewChangeMessages(votes), blk).ToConsensusRawMessage()
+			} else {
+				msg = n.fac(1, nil).CreatePreprepareMessage(1, 5, blk, kit.HashOf(blk)).ToConsensusRawMessage()
+			}
+			s.Thread("feeder", func() { n.M.HandleConsensusMessage(n.Ctx, msg) })
+			addCancel(n, cancel)
+			if !s.Run(20000) {
+				x.Bad("C16", "livelock", "step horizon reached")
+			}
+			finish(x, n, nil, "")
+		})
+	}
 
 	// S-stale-trigger+cancel: an election trigger is already waiting in the worker's queue while the worker is held
 	// inside a slow ValidateBlockProposal; a sync then moves the node to the next height (the trigger becomes stale)
